@@ -233,7 +233,10 @@ impl Report {
     }
     pub fn disagree(&mut self, d: Disagreement) {
         self.n_disagreements += 1;
-        if self.disagreements.len() < 20 {
+        // keep the first 20, and beyond that the first 3 of every obligation not yet represented,
+        // so that a flood from one oracle does not hide what the other oracles say
+        let same = self.disagreements.iter().filter(|x| x.obligation == d.obligation).count();
+        if self.disagreements.len() < 20 || (same < 3 && self.disagreements.len() < 60) {
             self.disagreements.push(d);
         }
     }
